@@ -7,6 +7,7 @@ mod ownber;
 mod owndn;
 mod ownfilter;
 mod rng;
+mod sess;
 mod text;
 
 use std::io::{BufRead, Write};
